@@ -290,7 +290,8 @@ def c10_3(ctx):
             ok = unparse(b.get('instruction')) == unparse(sv.target.elts[1]) and unparse(b.get('isa_model')) == 'isa_model' and unparse(b.get('memzone_manager')) == 'memzone_manager'
     ctx.check(ok, 'steps:assembled-in-order', mv.site(pl[0]) if pl else mv.site(), 'each expanded step is assembled by the instruction parser, in order', '')
     cc = [c for c in ast.walk(mv.node) if isinstance(c, ast.Call) and unparse(c.func) == 'CompositeAssembledInstruction']
-    ok = len(cc) == 1 and len(cc[0].args) == 2 and unparse(cc[0].args[1]) == 'assembled_instructions'
+    ci_ = ctx.repo.func('bespokeasm.assembler.bytecode.assembled.CompositeAssembledInstruction.__init__')
+    ok = len(cc) == 1 and unparse(bind_args(cc[0], ci_).get(ci_.call_params[1].arg)) == 'assembled_instructions'
     ctx.check(ok, 'steps:composite-of-all-steps', mv.site(cc[0]) if cc else mv.site(), 'the macro is the composite of all assembled steps', '; '.join(unparse(c) for c in cc))
 
 
